@@ -126,6 +126,17 @@ def accepts(env, node, d, fuel=60):
         return d[0] == "s" and node[1] <= len(json.loads(d[1])) <= node[2]
     if k == "strre":
         return d[0] == "s" and re.search(node[1], json.loads(d[1])) is not None
+    if k == "strfmt":                                # a string format: only clearly valid / clearly invalid probes are used
+        if d[0] != "s":
+            return False
+        v = json.loads(d[1])
+        return {"email": v == "a@b.cc", "uuid": v == "550e8400-e29b-41d4-a716-446655440000"}[node[1]]
+    if k == "dec":                                   # decimal with precision p: a number with at most p fractional digits
+        import check_c10 as N10
+        return d[0] in "if" and N10.expansion(N10.value(d[1]))[1] <= node[1]
+    if k == "num":                                   # {min: m} without a type: a number >= m
+        import check_c10 as N10
+        return d[0] in "if" and N10.value(d[1]) >= node[1]
     if k == "tref":                                  # <example> // {type: "@T", nullable}
         return (d[0] == "n" and node[2]) or accepts(env, env[node[1]], d, fuel - 1)
     if k == "orform":                                # <example> // {or: [alt...], nullable}
@@ -178,6 +189,16 @@ def alt_node(a):
         return ("ref", [a[1]], False)
     if a[0] == "int":
         return ("int", a[1], a[2], False)
+    if a[0] == "boolalt":
+        return ("bool",)
+    if a[0] == "fmt":
+        return ("strfmt", a[1])
+    if a[0] == "dec":
+        return ("dec", a[1])
+    if a[0] == "untyped-len":
+        return ("strl", a[1], a[2])
+    if a[0] == "untyped-min":          # min goes with integer and float: the kind of the outer example is kept when it is one of them, otherwise float
+        return ("int", a[1], None, False) if a[2] == "i" else ("num", a[1])
     return a
 
 
@@ -190,6 +211,16 @@ def print_alt(a):
         return "{%s}" % ", ".join(['type: "integer"'] + (["min: %d" % a[1]] if a[1] is not None else []) + (["max: %d" % a[2]] if a[2] is not None else []))
     if a[0] == "strl":
         return '{type: "string", minLength: %d, maxLength: %d}' % (a[1], a[2])
+    if a[0] == "boolalt":
+        return '{type: "boolean"}'
+    if a[0] == "fmt":
+        return '{type: "%s"}' % a[1]
+    if a[0] == "dec":
+        return '{type: "decimal", precision: %d}' % a[1]
+    if a[0] == "untyped-len":
+        return "{minLength: %d, maxLength: %d}" % (a[1], a[2])
+    if a[0] == "untyped-min":
+        return "{min: %d}" % a[1]
     raise ValueError(a)
 
 
@@ -301,7 +332,7 @@ def inhabitant(rng, env, node, fuel=8):
         return ("o", ms)
 
 
-SCALAR_PROBES = [("i", "-1"), ("i", "0"), ("i", "3"), ("i", "5"), ("i", "9"), ("i", "10"), ("i", "11"), ("i", "99"), ("s", '""'), ("s", '"x"'), ("s", '"xx"'), ("s", '"xxx"'), ("s", '"xxxx"'),
+SCALAR_PROBES = [("s", '"a@b.cc"'), ("s", '"550e8400-e29b-41d4-a716-446655440000"'), ("f", "0.5"), ("f", "2.25"), ("i", "-1"), ("i", "0"), ("i", "3"), ("i", "5"), ("i", "9"), ("i", "10"), ("i", "11"), ("i", "99"), ("s", '""'), ("s", '"x"'), ("s", '"xx"'), ("s", '"xxx"'), ("s", '"xxxx"'),
                  ("s", '"abc"'), ("s", '"ab1"'), ("b", "true"), ("n", "null"), ("o", []), ("a", [])]
 
 
@@ -316,7 +347,7 @@ def rule_form_cases(rng, n):
                "@U": ("ref", ["@I", "@S"], False), "@O": ("obj", [("id", False, ("int", None, None, False))], None, [])}
         names = ["@I", "@S", "@R", "@B", "@U", "@O"]
         ex = {"@I": str(lo), "@S": json.dumps("x" * l1), "@R": '"abc"', "@B": "true", "@U": str(lo)}
-        form = rng.choice(["tref", "tref", "or-names", "or-sets", "or-mixed", "kshort", "kshort"])
+        form = rng.choice(["tref", "tref", "or-names", "or-sets", "or-kinds", "or-kinds", "or-mixed", "kshort", "kshort"])
         nullable = rng.random() < 0.5
         if form == "tref":
             t = rng.choice(["@I", "@S", "@R", "@B", "@U"])
@@ -330,6 +361,16 @@ def rule_form_cases(rng, n):
             alts = [a1, a2]
             rng.shuffle(alts)
             node = ("orform", alts, nullable, str(a1[1] if a1[1] is not None else 5))
+        elif form == "or-sets" and False:
+            pass
+        elif form == "or-kinds":
+            # the JSON kind of an alternative follows what the rule-set declares (a string format, decimal = float) or, without a type, what its rules leave
+            alts = rng.sample([("fmt", "email"), ("fmt", "uuid"), ("dec", 1), ("untyped-len", l1, l2), ("untyped-min", lo)], 1) + [rng.choice([("int", None, None), ("strl", 0, 0), ("boolalt",)])]
+            rng.shuffle(alts)
+            exmap = {"int": "5", "strl": '""', "boolalt": "true"}
+            exk = [a for a in alts if a[0] in exmap][0][0]
+            alts = [(a + ("i" if exk == "int" else "x",)) if a[0] == "untyped-min" else a for a in alts]
+            node = ("orform", alts, nullable, exmap[exk])
         elif form == "or-mixed":
             alts = [("t", "@I"), ("strl", l1, l2)] if rng.random() < 0.5 else ["@S", ("int", 10, 99)]
             node = ("orform", alts, nullable, ex["@I"] if alts[0] == ("t", "@I") else ex["@S"])
@@ -550,7 +591,7 @@ def run(ctx):
         a = rng.choice(["any", "string", "integer", "boolean", "null", "object", "array", "@Id", "@N", "@U", "@L", "@S"])
         inner = ("obj", [("a", rng.random() < 0.5, ("int", None, None, False))], a, [])
         root = rng.choice([inner, ("obj", [("w", False, inner)], None, []), ("arr", [inner])])
-        pool = [("i", "1"), ("i", "77"), ("s", '"x"'), ("b", "true"), ("n", "null"), ("o", []), ("o", [("id", ("i", "7"))]), ("o", [("k", ("i", "1"))]), ("a", []), ("a", [("i", "1"), ("i", "2")]),
+        pool = [("i", "1"), ("i", "77"), ("s", '"x"'), ("s", '"1.5"'), ("s", '"a.b"'), ("s", '"192.168.0.1"'), ("b", "true"), ("n", "null"), ("o", []), ("o", [("id", ("i", "7"))]), ("o", [("k", ("i", "1"))]), ("a", []), ("a", [("i", "1"), ("i", "2")]),
                 ("a", [("s", '"q"')]), ("o", [("id", ("s", '"no"'))])]
         docs = []
         for _ in range(6):
@@ -570,10 +611,15 @@ def run(ctx):
         if f.endswith(".json"):
             corpus += json.load(open(os.path.join(cdir, f)))
     if corpus:
-        couts = vc.impl(["schema"], [json.dumps({"schema": c["schema"], "types": c.get("types", []), "ops": [["check"], ["validate", c["document"]]]}) for c in corpus])
+        couts = vc.impl(["schema"], [json.dumps({"schema": c["schema"], "types": c.get("types", []), "roottypes": c.get("roottypes", False), "private": c.get("private", []),
+                                                 "ops": [["check"], ["validate", c.get("document", "null")]]}) for c in corpus])
         for c, o in zip(corpus, couts):
             r = json.loads(o)
             ctx.evaluations += 1
+            if c.get("expect_check") == "err":          # the schema itself must be refused (conflicting requirements)
+                if r[0] == "ok" and len(ctx.violations) < 40:
+                    ctx.report("corpus case: Check accepts %r types %r, expected a refusal: %s" % (c["schema"][:100], c.get("types"), c.get("why", "")), "c03corpus:" + c["schema"] + json.dumps(c.get("types")), dict(c, implementation=r), case=c)
+                continue
             got = "accept" if (r[0] == "ok" and r[1] == "ok") else "reject"
             if (r[0] != "ok" or got != c["expect"]) and len(ctx.violations) < 40:
                 ctx.report("corpus case: Check %s, Validate(%s) %s, expected %s; schema %r types %r" % (r[0], c["document"], r[1] if len(r) > 1 else "-", c["expect"], c["schema"][:100], c.get("types")),
